@@ -1,13 +1,17 @@
-(* Executable model of the PoA block production task:
+(* Executable model of the PoA block production task and its sync task:
      crates/services/consensus_module/poa/src/service.rs
        MainTask::{extract_block_info, next_height, next_time, produce_next_block,
-                  produce_manual_blocks, produce_block, update_last_block_values,
+                  produce_manual_blocks, produce_block, update_last_block_values, ensure_synced,
                   try_to_produce_block, handle_normal_block_production, error_retry_delay},
        RunnableTask::run (choice of the production deadline), increase_time.
+     crates/services/consensus_module/poa/src/sync.rs
+       SyncTask::{new, run, update_sync_state, restart_timer}, InnerSyncState, SyncState.
    Ports (producer, signer, importer, reconciliation) are scripted outcomes carried by the
    operation; the wall clock (GetTime) is an input of every operation; the monotonic clock
    (tokio Instant, milliseconds) is part of the state and moves by sleeps and by OAdvance.
-   The database behind the importer port is the environment component [db].
+   The database behind the importer port is the environment component [db]; the importer
+   announces every imported block on block_stream (event EImported / EP2p), which is what the
+   sync task consumes.
    No proofs in this file. *)
 From FC Require Export Common.T.
 Open Scope N_scope.
@@ -35,7 +39,7 @@ Definition set_db (st : mstate) (d : option (N * N)) : mstate :=
   {| last_height := last_height st; last_timestamp := last_timestamp st;
      last_created := last_created st; trig := trig st; now_i := now_i st; db := d |}.
 
-(* the mock database keeps the highest block it was given *)
+(* the database keeps the highest block it was given *)
 Definition db_up (d : option (N * N)) (h t : N) : option (N * N) :=
   match d with
   | Some (dh, dt) => if dh <? h then Some (h, t) else d
@@ -70,14 +74,17 @@ Definition next_time_trigger (st : mstate) (clock : N) : option N :=
   | _ => if last_timestamp st <? clock then Some clock else next_time_manual st
   end.
 
-(* port calls; the last field [known] of a request is a ghost: last_height when it was made *)
+(* port calls and importer announcements; the last field [known] of a request is a ghost:
+   last_height when the request was made *)
 Inductive event :=
-| ELeader (h : N) (known : N)
-| EProduce (h time src : N) (deadline at_ : Z) (known : N)
-| ESeal (h : N)
-| ECommit (h time : N) (sealed : bool) (known : N)
-| EExec (h time : N) (known : N)
-| ERelease.
+| ELeader (h : N) (known : N)                              (* leader_state(next_height) *)
+| EProduce (h time src : N) (deadline at_ : Z) (known : N) (* produce_and_execute_block *)
+| ESeal (h : N)                                            (* seal_block *)
+| ECommit (h time : N) (sealed : bool) (known : N)         (* commit_result *)
+| EExec (h time : N) (known : N)                           (* execute_and_commit *)
+| ERelease                                                 (* reconciliation release *)
+| EImported (h time : N) (local : bool) (at_ : Z)          (* the importer announced the block *)
+| EP2p (h time : N) (at_ : Z).                             (* a block imported by another path *)
 
 Definition fail_is (fail : option (N * N)) (idx stage : N) : bool :=
   match fail with Some (i, s) => (i =? idx) && (s =? stage) | None => false end.
@@ -100,11 +107,12 @@ Definition produce_block (st : mstate) (signer : bool) (h time src : N) (deadlin
         if fail_is fail idx 2 then (st1, false, true, [e1; ESeal h; e3])
         else
           let c := match trig st with TOpen _ => Z.max deadline created | _ => created end in
-          (set_db (upd st1 h time c) (db_up (db st1) h time), true, true, [e1; ESeal h; e3]).
+          (set_db (upd st1 h time c) (db_up (db st1) h time), true, true,
+           [e1; ESeal h; e3; EImported h time true (now_i st1)]).
 
 Definition next_height (st : mstate) : N := last_height st + 1.
 
-(* Mode::Blocks: the loop of produce_manual_blocks; Some = Ok, None = Err *)
+(* Mode::Blocks: the loop of produce_manual_blocks *)
 Fixpoint manual_loop (n : nat) (st : mstate) (signer : bool) (block_time : N)
          (fail : option (N * N)) (idx : N) : mstate * bool * list event :=
   match n with
@@ -161,21 +169,35 @@ Fixpoint reconcile (nh : N) (st : mstate) (bs : list (N * N * bool)) : mstate * 
       if h <=? last_height st then reconcile nh st r
       else
         let e := EExec h t (last_height st) in
-        let st1 := if ok then set_db (upd st h t (last_created st)) (db_up (db st) h t)
-                   else resync st in
-        let '(st2, ev) := reconcile nh st1 r in (st2, e :: ev)
+        if ok then
+          let '(st2, ev) := reconcile nh (set_db (upd st h t (last_created st)) (db_up (db st) h t)) r in
+          (st2, e :: EImported h t false (now_i st) :: ev)
+        else
+          let '(st2, ev) := reconcile nh (resync st) r in (st2, e :: ev)
   end.
 
 (* results of an operation *)
 Inductive result := RContinue | RErrorContinue | RBlocked | ROkManual | RErrManual | RNone.
 
+(* a block imported by another path (p2p) while the task was between ensure_synced and the
+   database height check: height = last_height + delta - 1 *)
+Definition apply_mid (st : mstate) (mid : option (N * N)) : mstate * list event :=
+  match mid with
+  | Some (dd, t) =>
+      let h := last_height st + dd - 1 in
+      (set_db st (db_up (db st) h t), [EP2p h t (now_i st)])
+  | None => (st, [])
+  end.
+
 Definition try_to_produce_block (st : mstate) (clock : N) (signer : bool) (l : leader)
-           (fail : option (N * N)) (deadline : Z) : mstate * result * list event :=
-  let st1 := resync st in
+           (fail : option (N * N)) (mid : option (N * N)) (deadline : Z)
+  : mstate * result * list event :=
+  let '(st0, ev0) := apply_mid st mid in
+  let st1 := resync st0 in
   let e0 := ELeader (next_height st1) (last_height st1) in
   match l with
-  | LErr => (st1, RErrorContinue, [e0])
-  | LFollower => (set_now st1 (Z.max (now_i st1) deadline), RContinue, [e0])
+  | LErr => (st1, RErrorContinue, ev0 ++ [e0])
+  | LFollower => (set_now st1 (Z.max (now_i st1) deadline), RContinue, ev0 ++ [e0])
   | LLeader =>
       let '(st2, ok, ev) :=
         match next_time_trigger st1 clock with
@@ -184,24 +206,28 @@ Definition try_to_produce_block (st : mstate) (clock : N) (signer : bool) (l : l
             let '(s, ok, _, ev) := produce_block st1 signer (next_height st1) t 0 deadline fail 0 in
             (s, ok, ev)
         end in
-      if ok then (st2, RContinue, e0 :: ev)
+      if ok then (st2, RContinue, ev0 ++ e0 :: ev)
       else (set_now st2 (now_i st2 + ms (error_retry_delay st2))%Z, RErrorContinue,
-            e0 :: ev ++ [ERelease])
+            ev0 ++ e0 :: ev ++ [ERelease])
   | LBlocks bs =>
-      let '(st2, ev) := reconcile (next_height st1) st1 bs in (st2, RContinue, e0 :: ev)
+      let '(st2, ev) := reconcile (next_height st1) st1 bs in (st2, RContinue, ev0 ++ e0 :: ev)
   end.
 
-(* one iteration of RunnableTask::run taking the production branch *)
+(* the wait of a run-loop iteration that never reaches production (Trigger::Never, or not
+   synced): the harness gives up after this many milliseconds *)
+Definition big_wait : Z := 100000%Z.
+
+(* one iteration of RunnableTask::run taking the production branch (after ensure_synced) *)
 Definition tick (st : mstate) (clock : N) (signer : bool) (l : leader) (fail : option (N * N))
-  : mstate * result * list event :=
+           (mid : option (N * N)) : mstate * result * list event :=
   match trig st with
-  | TNever => (st, RBlocked, [])
-  | TInstant => try_to_produce_block st clock signer l fail (now_i st)
+  | TNever => (set_now st (now_i st + big_wait)%Z, RBlocked, [])
+  | TInstant => try_to_produce_block st clock signer l fail mid (now_i st)
   | TInterval bt =>
       let target := (last_created st + ms bt)%Z in
       let st' := set_now st (Z.max (now_i st) target) in
-      try_to_produce_block st' clock signer l fail (now_i st')
-  | TOpen p => try_to_produce_block st clock signer l fail (last_created st + ms p)%Z
+      try_to_produce_block st' clock signer l fail mid (now_i st')
+  | TOpen p => try_to_produce_block st clock signer l fail mid (last_created st + ms p)%Z
   end.
 
 Definition update_last_block_values (st : mstate) (clock h t : N) : mstate :=
@@ -209,15 +235,15 @@ Definition update_last_block_values (st : mstate) (clock h t : N) : mstate :=
   if last_height st <? h' then upd st h' t' c' else st.
 
 Inductive op :=
-| OTick (clock : N) (signer : bool) (l : leader) (fail : option (N * N))
+| OTick (clock : N) (signer : bool) (l : leader) (fail : option (N * N)) (mid : option (N * N))
 | OManual (clock : N) (signer : bool) (start : option N) (m : mode) (fail : option (N * N))
-| OSync (clock delta t : N)            (* height = last_height + delta - 1 *)
-| ODb (d : option (N * N))
+| OSync (clock delta t : N)            (* update_last_block_values; height = last_height + delta - 1 *)
+| ODb (d : option (N * N))             (* the database content changes silently *)
 | OAdvance (millis : N).
 
 Definition step (st : mstate) (o : op) : mstate * result * list event :=
   match o with
-  | OTick clock signer l fail => tick st clock signer l fail
+  | OTick clock signer l fail mid => tick st clock signer l fail mid
   | OManual _ signer start m fail =>
       let '(st', ok, ev) := produce_manual_blocks st signer start m fail in
       (st', if ok then ROkManual else RErrManual, ev)
@@ -227,13 +253,157 @@ Definition step (st : mstate) (o : op) : mstate * result * list event :=
   | OAdvance m => (set_now st (now_i st + Z.of_N m)%Z, RNone, [])
   end.
 
-Fixpoint run (st : mstate) (ops : list op) : list (mstate * result * list event) :=
-  match ops with
-  | [] => []
-  | o :: r => let '(st', res, ev) := step st o in (st', res, ev) :: run st' r
+(* ------------------------------------------------------------------ *)
+(* sync.rs: the sync task                                              *)
+
+Inductive inner := IInsufficient | ISufficient | ISynced (has_sufficient_peers : bool).
+
+Record sync := {
+  s_inner : inner;
+  s_hdr : N * N;               (* the header carried by the inner state: (height, time) *)
+  s_pub : option (N * N);      (* the published SyncState: None = NotSynced *)
+  s_min : N;                   (* min_connected_reserved_peers *)
+  s_period : option Z;         (* time_until_synced in ms; None = zero = no timer *)
+  s_next : Z;                  (* next tick of the interval timer *)
+  s_water : N                  (* reconciliation watermark (shared with MainTask) *)
+}.
+
+Definition sy_set (s : sync) (i : inner) (hdr : N * N) (p : option (N * N)) : sync :=
+  {| s_inner := i; s_hdr := hdr; s_pub := p; s_min := s_min s; s_period := s_period s;
+     s_next := s_next s; s_water := s_water s |}.
+Definition sy_next (s : sync) (n : Z) : sync :=
+  {| s_inner := s_inner s; s_hdr := s_hdr s; s_pub := s_pub s; s_min := s_min s;
+     s_period := s_period s; s_next := n; s_water := s_water s |}.
+Definition sy_water (s : sync) (w : N) : sync :=
+  {| s_inner := s_inner s; s_hdr := s_hdr s; s_pub := s_pub s; s_min := s_min s;
+     s_period := s_period s; s_next := s_next s; s_water := w |}.
+
+(* restart_timer = Interval::reset: the next tick is one period from now *)
+Definition restart_timer (s : sync) (now : Z) : sync :=
+  match s_period s with Some p => sy_next s (now + p)%Z | None => s end.
+
+(* the arm of SyncTask::run for a reserved-peers count *)
+Definition on_peers (s : sync) (now : Z) (n : N) : sync :=
+  let sufficient := s_min s <=? n in
+  match s_inner s with
+  | IInsufficient =>
+      if sufficient then restart_timer (sy_set s ISufficient (s_hdr s) (s_pub s)) now else s
+  | ISufficient =>
+      if negb sufficient then restart_timer (sy_set s IInsufficient (s_hdr s) (s_pub s)) now else s
+  | ISynced _ => sy_set s (ISynced sufficient) (s_hdr s) (s_pub s)
   end.
 
-(* MainTask::new + into_task *)
+(* the arm for an imported block *)
+Definition on_block (s : sync) (now : Z) (h t : N) (local : bool) : sync :=
+  if fst (s_hdr s) <? h then
+    match s_inner s with
+    | IInsufficient => sy_set s IInsufficient (h, t) (s_pub s)
+    | ISufficient => restart_timer (sy_set s ISufficient (h, t) (s_pub s)) now
+    | ISynced has =>
+        let is_reconciliation := (0 <? s_water s) && (h <=? s_water s) in
+        if local || is_reconciliation then sy_set s (ISynced has) (h, t) (Some (h, t))
+        else if has then restart_timer (sy_set s ISufficient (h, t) None) now
+        else sy_set s IInsufficient (h, t) None
+    end
+  else s.
+
+(* the arm for the timer *)
+Definition on_tick (s : sync) : sync :=
+  match s_inner s with
+  | ISufficient => sy_set s (ISynced true) (s_hdr s) (Some (s_hdr s))
+  | _ => s
+  end.
+
+(* the monotonic clock reaches [t]: a due tick fires (MissedTickBehavior::Skip: later ticks
+   stay on the original grid) *)
+Definition advance_to (s : sync) (t : Z) : sync :=
+  match s_period s with
+  | Some p =>
+      if (s_next s <=? t)%Z
+      then sy_next (on_tick s) (s_next s + p * ((t - s_next s) / p + 1))%Z
+      else s
+  | None => s
+  end.
+
+(* what the sync task sees of an event of the main task / importer *)
+Definition feed (s : sync) (e : event) : sync :=
+  match e with
+  | EImported h t local a => on_block (advance_to s a) a h t local
+  | EP2p h t a => on_block (advance_to s a) a h t false
+  | EExec h _ _ => sy_water s (N.max (s_water s) h)      (* reconciliation_watermark.fetch_max *)
+  | _ => s
+  end.
+
+Record fstate := { fm : mstate; fs : sync }.
+
+Inductive fop :=
+| FTick (clock : N) (signer : bool) (l : leader) (fail : option (N * N)) (mid : option (N * N))
+| FMain (o : op)
+| FPeers (n : N)
+| FNet (delta t : N).          (* a block imported by another path, announced on block_stream *)
+
+(* observation of an operation: for FTick the outcome of ensure_synced comes first *)
+Record fres := {
+  r_ens : option (bool * mstate * option (N * N));  (* passed?, state after it, published header then *)
+  r_res : result
+}.
+
+Definition settle (st : mstate) (s : sync) (evs : list event) : sync :=
+  advance_to (fold_left feed evs s) (now_i st).
+
+Definition fstep (f : fstate) (o : fop) : fstate * fres * list event :=
+  let st := fm f in
+  let s := fs f in
+  match o with
+  | FTick clock signer l fail mid =>
+      (* ensure_synced: wait for the published state to be Synced *)
+      let waited :=
+        match s_pub s with
+        | Some _ => Some (st, s)
+        | None =>
+            match s_inner s, s_period s with
+            | ISufficient, Some _ =>
+                let n := Z.max (now_i st) (s_next s) in Some (set_now st n, advance_to s n)
+            | _, _ => None
+            end
+        end in
+      match waited with
+      | Some (st1, s1) =>
+          match s_pub s1 with
+          | Some (h, t) =>
+              let st2 := update_last_block_values st1 clock h t in
+              let '(st3, res, evs) := tick st2 clock signer l fail mid in
+              ({| fm := st3; fs := settle st3 s1 evs |},
+               {| r_ens := Some (true, st2, Some (h, t)); r_res := res |}, evs)
+          | None =>   (* unreachable: a fired tick publishes Synced *)
+              ({| fm := st1; fs := s1 |}, {| r_ens := Some (false, st1, None); r_res := RBlocked |}, [])
+          end
+      | None =>
+          (* neither ensure_synced nor the run-loop iteration return: two abandoned waits *)
+          let st1 := set_now st (now_i st + big_wait)%Z in
+          let st2 := set_now st1 (now_i st1 + big_wait)%Z in
+          ({| fm := st2; fs := advance_to s (now_i st2) |},
+           {| r_ens := Some (false, st1, None); r_res := RBlocked |}, [])
+      end
+  | FMain o' =>
+      let '(st', res, evs) := step st o' in
+      ({| fm := st'; fs := settle st' s evs |}, {| r_ens := None; r_res := res |}, evs)
+  | FPeers n =>
+      ({| fm := st; fs := on_peers s (now_i st) n |}, {| r_ens := None; r_res := RNone |}, [])
+  | FNet dd t =>
+      let h := last_height st + dd - 1 in
+      let st' := set_db st (db_up (db st) h t) in
+      let evs := [EP2p h t (now_i st)] in
+      ({| fm := st'; fs := settle st' s evs |}, {| r_ens := None; r_res := RNone |}, evs)
+  end.
+
+Fixpoint frun (f : fstate) (ops : list fop) : list (fstate * fres * list event) :=
+  match ops with
+  | [] => []
+  | o :: r => let '(f', res, ev) := fstep f o in (f', res, ev) :: frun f' r
+  end.
+
+(* MainTask::new + into_task; SyncTask::new and its first poll *)
 Definition init (tr : trigger) (h0 t0 clock0 : N) : mstate :=
   {| last_height := h0; last_timestamp := t0;
      last_created := match tr with
@@ -242,55 +412,169 @@ Definition init (tr : trigger) (h0 t0 clock0 : N) : mstate :=
                      end;
      trig := tr; now_i := 0%Z; db := Some (h0, t0) |}.
 
+Definition sync_init (min_peers tus_ms h0 t0 : N) : sync :=
+  let period := if tus_ms =? 0 then None else Some (Z.of_N tus_ms) in
+  let i := match min_peers, period with
+           | 0, None => ISynced true
+           | 0, Some _ => ISufficient
+           | _, _ => IInsufficient
+           end in
+  advance_to
+    {| s_inner := i; s_hdr := (h0, t0);
+       s_pub := match min_peers, period with 0, None => Some (h0, t0) | _, _ => None end;
+       s_min := min_peers; s_period := period; s_next := 0%Z; s_water := 0 |} 0%Z.
+
+Definition finit (tr : trigger) (h0 t0 clock0 min_peers tus_ms : N) : fstate :=
+  {| fm := init tr h0 t0 clock0; fs := sync_init min_peers tus_ms h0 t0 |}.
+
 (* ------------------------------------------------------------------ *)
-(* Pcheck: decidable local properties of one observed operation        *)
+(* Pcheck.  The flat log is first parsed into actions (a production attempt is produce
+   [; seal [; commit_result [; announcement]]] of one block, a reconciliation import is
+   execute_and_commit [; announcement]); then the actions are replayed against the state known
+   before the operation.                                                                      *)
 
-Definition is_request (e : event) : bool :=
-  match e with EProduce _ _ _ _ _ _ | ESeal _ | ECommit _ _ _ _ => true | _ => false end.
+Inductive action :=
+| ALeader (h g : N)
+| AP2p (h t : N) (a : Z)
+| AProduce (h t src : N) (dl a : Z) (g g' : N) (a' : Z) (stage : N)
+    (* stage 0: only produce was called; 1: + seal; 2: + commit_result; 3: + announced *)
+| AExec (h t g : N) (imported : option Z)
+| ARelease.
 
-(* every commit_result is directly preceded by the seal of the same block, which is directly
-   preceded by its production; the committed block carries the seal *)
-Fixpoint seal_order_okb (evs : list event) : bool :=
+Definition flatten1 (x : action) : list event :=
+  match x with
+  | ALeader h g => [ELeader h g]
+  | AP2p h t a => [EP2p h t a]
+  | AProduce h t src dl a g g' a' stage =>
+      firstn (S (N.to_nat (N.min stage 3)))
+             [EProduce h t src dl a g; ESeal h; ECommit h t true g'; EImported h t true a']
+  | AExec h t g None => [EExec h t g]
+  | AExec h t g (Some a) => [EExec h t g; EImported h t false a]
+  | ARelease => [ERelease]
+  end.
+Definition flatten (xs : list action) : list event := flat_map flatten1 xs.
+
+Fixpoint parse (evs : list event) : option (list action) :=
   match evs with
-  | [] => true
-  | EProduce h t _ _ _ _ :: ESeal h1 :: ECommit h2 t2 sealed _ :: r =>
-      (h =? h1) && (h =? h2) && (t =? t2) && sealed && seal_order_okb r
-  | EProduce h t _ _ _ _ :: ESeal h1 :: r => (h =? h1) && seal_order_okb r
-  | EProduce _ _ _ _ _ _ :: r => seal_order_okb r
-  | ESeal _ :: _ => false
-  | ECommit _ _ _ _ :: _ => false
-  | _ :: r => seal_order_okb r
+  | [] => Some []
+  | ELeader h g :: r => option_map (cons (ALeader h g)) (parse r)
+  | EP2p h t a :: r => option_map (cons (AP2p h t a)) (parse r)
+  | ERelease :: r => option_map (cons ARelease) (parse r)
+  | EProduce h t src dl a g :: ESeal h1 :: ECommit h2 t2 sealed g' :: EImported h3 t3 lo a' :: r =>
+      if (h =? h1) && (h =? h2) && (t =? t2) && sealed && (h =? h3) && (t =? t3) && lo
+      then option_map (cons (AProduce h t src dl a g g' a' 3)) (parse r) else None
+  | EProduce h t src dl a g :: ESeal h1 :: ECommit h2 t2 sealed g' :: r =>
+      if (h =? h1) && (h =? h2) && (t =? t2) && sealed
+      then option_map (cons (AProduce h t src dl a g g' 0 2)) (parse r) else None
+  | EProduce h t src dl a g :: ESeal h1 :: r =>
+      if h =? h1 then option_map (cons (AProduce h t src dl a g 0 0 1)) (parse r) else None
+  | EProduce h t src dl a g :: r => option_map (cons (AProduce h t src dl a g 0 0 0)) (parse r)
+  | EExec h t g :: EImported h1 t1 lo a :: r =>
+      if (h =? h1) && (t =? t1) && negb lo
+      then option_map (cons (AExec h t g (Some a))) (parse r) else None
+  | EExec h t g :: r => option_map (cons (AExec h t g None)) (parse r)
+  | ESeal _ :: _ => None
+  | ECommit _ _ _ _ :: _ => None
+  | EImported _ _ _ _ :: _ => None
   end.
 
-(* heights of produce requests go up by one from [h]+1, times never go below [t] and never
-   decrease; returns the failure class: 1 ok, 0 height/time wrong *)
-Fixpoint produce_chain_okb (h t : N) (evs : list event) : bool :=
-  match evs with
-  | [] => true
-  | EProduce h' t' _ _ _ _ :: r => (h' =? h + 1) && (t <=? t') && produce_chain_okb h' t' r
-  | ELeader h' _ :: r => (h' =? h + 1) && produce_chain_okb h t r
-  | _ :: r => produce_chain_okb h t r
+(* what is known while replaying: the production state, the database's latest block, whether
+   the DB-height resync adopted a height, and the two finding flags *)
+Record kst := {
+  kh : N; kt : N; kc : Z; kdb : option (N * N);
+  kadopt : bool;      (* the resync raised the known height *)
+  ka1 : bool;         (* a block time below the database's latest block time was requested after that *)
+  kb : bool           (* an execute_and_commit was requested for a height other than the next one *)
+}.
+
+Definition k_of (st : mstate) : kst :=
+  {| kh := last_height st; kt := last_timestamp st; kc := last_created st; kdb := db st;
+     kadopt := false; ka1 := false; kb := false |}.
+
+Definition k_db (k : kst) (d : option (N * N)) : kst :=
+  {| kh := kh k; kt := kt k; kc := kc k; kdb := d; kadopt := kadopt k; ka1 := ka1 k; kb := kb k |}.
+Definition k_resync (k : kst) : kst :=
+  match kdb k with
+  | Some (dh, _) =>
+      if kh k <? dh
+      then {| kh := dh; kt := kt k; kc := kc k; kdb := kdb k; kadopt := true; ka1 := ka1 k; kb := kb k |}
+      else k
+  | None => k
+  end.
+Definition k_import (k : kst) (h t : N) (c : Z) : kst :=
+  {| kh := h; kt := t; kc := c; kdb := db_up (kdb k) h t; kadopt := kadopt k; ka1 := ka1 k; kb := kb k |}.
+Definition k_flag_a1 (k : kst) (b : bool) : kst :=
+  {| kh := kh k; kt := kt k; kc := kc k; kdb := kdb k; kadopt := kadopt k; ka1 := ka1 k || b; kb := kb k |}.
+Definition k_flag_b (k : kst) (b : bool) : kst :=
+  {| kh := kh k; kt := kt k; kc := kc k; kdb := kdb k; kadopt := kadopt k; ka1 := ka1 k; kb := kb k || b |}.
+
+Definition below_db_time (k : kst) (t : N) : bool :=
+  kadopt k && match kdb k with Some (_, dt) => t <? dt | None => false end.
+
+(* the context of an operation: trigger and the deadline / call instant a production request
+   must carry *)
+Inductive dl_rule :=
+| DLNow                (* manual production, Trigger::Instant: deadline = the instant of the call *)
+| DLAt (d : Z)         (* Trigger::Interval: deadline = call instant = d *)
+| DLOpen (d a : Z).    (* Trigger::Open: deadline d, called at a *)
+
+Definition dl_okb (r : dl_rule) (dl a : Z) : bool :=
+  match r with
+  | DLNow => (dl =? a)%Z
+  | DLAt d => (dl =? d)%Z && (a =? d)%Z
+  | DLOpen d a0 => (dl =? d)%Z && (a =? a0)%Z
   end.
 
-(* block times requested are not below the time of the database's latest block *)
-Definition db_time_okb (d : option (N * N)) (evs : list event) : bool :=
-  match d with
-  | None => true
-  | Some (_, dt) =>
-      forallb (fun e => match e with EProduce _ t _ _ _ _ => dt <=? t | _ => true end) evs
+Definition created_of (open : bool) (dl a : Z) : Z := if open then Z.max dl a else a.
+
+Definition act (open : bool) (r : dl_rule) (k : kst) (x : action) : option kst :=
+  match x with
+  | AP2p h t _ => Some (k_db k (db_up (kdb k) h t))
+  | ALeader h _ => let k' := k_resync k in if h =? kh k' + 1 then Some k' else None
+  | AProduce h t _ dl a _ _ a' stage =>
+      if (h =? kh k + 1) && (kt k <=? t) && dl_okb r dl a
+      then let k1 := k_flag_a1 k (below_db_time k t) in
+           if 3 <=? stage
+           then if (a' =? Z.max a dl)%Z then Some (k_import k1 h t (created_of open dl a)) else None
+           else Some k1
+      else None
+  | AExec h t _ imported =>
+      if kh k <? h
+      then let k1 := k_flag_b k (negb (h =? kh k + 1)) in
+           match imported with
+           | Some _ => Some (k_import k1 h t (kc k1))
+           | None => Some (k_resync k1)
+           end
+      else None
+  | ARelease => Some k
   end.
 
-(* reconciliation imports: every execute_and_commit is for the height after the latest known
-   one, where the known height follows the script of import outcomes; returns the class *)
-Fixpoint exec_chain_okb (nh h : N) (d : option N) (bs : list (N * N * bool)) (evs : list event) : bool :=
-  match evs with
-  | [] => true
-  | EExec h' t' _ :: r =>
-      let ok := existsb (fun b => match b with (off, bt, bok) => (nh + off - 1 =? h') && (bt =? t') && bok end) bs in
-      (h' =? h + 1) &&
-      (if ok then exec_chain_okb nh h' (match d with Some dh => Some (N.max dh h') | None => Some h' end) bs r
-       else exec_chain_okb nh (match d with Some dh => N.max h dh | None => h end) d bs r)
-  | _ :: r => exec_chain_okb nh h d bs r
+Fixpoint acts_run (open : bool) (r : dl_rule) (k : kst) (xs : list action) : option kst :=
+  match xs with
+  | [] => Some k
+  | x :: xs' => match act open r k x with Some k' => acts_run open r k' xs' | None => None end
+  end.
+
+Definition optNN_eqb (a b : option (N * N)) : bool :=
+  match a, b with
+  | None, None => true
+  | Some (x, y), Some (x', y') => (x =? x') && (y =? y')
+  | _, _ => false
+  end.
+
+(* the state after the operation is what the replay of its log says: no change of
+   (last_height, last_timestamp, last_block_created) or of the database without an import *)
+Definition final_okb (k : kst) (post : mstate) : bool :=
+  (kh k =? last_height post) && (kt k =? last_timestamp post) &&
+  (kc k =? last_created post)%Z && optNN_eqb (kdb k) (db post).
+
+Definition is_open (tr : trigger) : bool := match tr with TOpen _ => true | _ => false end.
+
+Definition tick_rule (pre : mstate) : dl_rule :=
+  match trig pre with
+  | TInterval bt => DLAt (Z.max (now_i pre) (last_created pre + ms bt))%Z
+  | TOpen p => DLOpen (last_created pre + ms p)%Z (now_i pre)
+  | _ => DLNow
   end.
 
 (* contract of the reconciliation port: consecutive blocks, the first not above the asked height *)
@@ -304,55 +588,41 @@ Definition batch_okb (bs : list (N * N * bool)) : bool :=
   | [] => true
   | (off, _, _) :: r => (off <=? 1) && batch_consecutive off r
   end.
-
-Definition has_commit_or_exec (evs : list event) : bool :=
-  existsb (fun e => match e with ECommit _ _ _ _ | EExec _ _ _ => true | _ => false end) evs.
-
-Definition deadline_okb (st : mstate) (evs : list event) : bool :=
-  match trig st with
-  | TInterval bt =>
-      let dl := Z.max (now_i st) (last_created st + ms bt)%Z in
-      forallb (fun e => match e with EProduce _ _ _ d a _ => (d =? dl)%Z && (a =? dl)%Z | _ => true end) evs
-  | TOpen p =>
-      forallb (fun e => match e with EProduce _ _ _ d _ _ => (d =? last_created st + ms p)%Z | _ => true end) evs
-  | _ => true
-  end.
+Definition leader_batch_okb (l : leader) : bool :=
+  match l with LBlocks bs => batch_okb bs | _ => true end.
 
 Definition same_prod_state (a b : mstate) : bool :=
   (last_height a =? last_height b) && (last_timestamp a =? last_timestamp b) &&
   (last_created a =? last_created b)%Z.
 
-Definition db_height (st : mstate) : option N :=
-  match db st with Some (h, _) => Some h | None => None end.
-
 Definition is_nil_ev (evs : list event) : bool := match evs with [] => true | _ => false end.
 
-(* classes: 1 holds; 2 the DB-height resync adopted the database height and a block time below the
-   database's latest block time was requested; 3 a reconciliation import (batch within the port
-   contract) requested for a height that is not the next one; 0 anything else *)
+(* classes: 1 holds; 2 the DB-height resync adopted the database height and a block time below
+   the database's latest block time was requested (A1); 3 a reconciliation import (batch within
+   the port contract) was requested for a height that is not the next one (B); 0 anything else *)
+Definition replay_okb (open : bool) (r : dl_rule) (batch_ok : bool) (pre post : mstate)
+           (evs : list event) : N :=
+  match parse evs with
+  | None => 0
+  | Some xs =>
+      match acts_run open r (k_of pre) xs with
+      | None => 0
+      | Some k =>
+          if negb (final_okb k post) then 0
+          else if ka1 k then 2
+          else if kb k && batch_ok then 3
+          else 1
+      end
+  end.
+
 Definition op_okb (pre : mstate) (o : op) (post : mstate) (evs : list event) : N :=
   match o with
-  | OTick _ _ l _ =>
-      let base := resync pre in
-      if (match trig pre with TNever => true | _ => false end)
-      then (if is_nil_ev evs && same_prod_state pre post then 1 else 0)
-      else
-      if negb (seal_order_okb evs && produce_chain_okb (last_height base) (last_timestamp pre) evs &&
-               deadline_okb pre evs &&
-               (has_commit_or_exec evs || same_prod_state base post) &&
-               (last_height pre <=? last_height post)) then 0
-      else if negb (last_height pre =? last_height base) && negb (db_time_okb (db pre) evs) then 2
-      else match l with
-           | LBlocks bs =>
-               if batch_okb bs && negb (exec_chain_okb (last_height base + 1) (last_height base)
-                                          (db_height pre) bs evs) then 3 else 1
-           | _ => 1
-           end
-  | OManual _ _ _ _ _ =>
-      if negb (seal_order_okb evs && produce_chain_okb (last_height pre) (last_timestamp pre) evs &&
-               (has_commit_or_exec evs || same_prod_state pre post) &&
-               (last_height pre <=? last_height post)) then 0
-      else 1
+  | OTick _ _ l _ _ =>
+      match trig pre with
+      | TNever => if is_nil_ev evs && same_prod_state pre post && optNN_eqb (db pre) (db post) then 1 else 0
+      | _ => replay_okb (is_open (trig pre)) (tick_rule pre) (leader_batch_okb l) pre post evs
+      end
+  | OManual _ _ _ _ _ => replay_okb false DLNow true pre post evs
   | OSync _ d t =>
       let h := last_height pre + d - 1 in
       if is_nil_ev evs && (if last_height pre <? h then (last_height post =? h) && (last_timestamp post =? t)
@@ -360,12 +630,33 @@ Definition op_okb (pre : mstate) (o : op) (post : mstate) (evs : list event) : N
   | _ => if is_nil_ev evs && same_prod_state pre post then 1 else 0
   end.
 
+(* the whole operation including ensure_synced: production only when the sync task says Synced,
+   and the header it published is adopted if higher *)
+Definition fop_okb (pre : mstate) (o : fop) (res : fres) (post : mstate) (evs : list event) : N :=
+  match o with
+  | FTick clock signer l fail mid =>
+      match r_ens res with
+      | Some (true, st2, Some (h, t)) =>
+          if same_prod_state st2 (update_last_block_values (set_now pre (now_i st2)) clock h t) &&
+             optNN_eqb (db pre) (db st2)
+          then op_okb st2 (OTick clock signer l fail mid) post evs else 0
+      | Some (false, st1, _) =>
+          if is_nil_ev evs && same_prod_state pre st1 && same_prod_state pre post &&
+             match r_res res with RBlocked => true | _ => false end then 1 else 0
+      | _ => 0
+      end
+  | FMain (OTick _ _ _ _ _) => 0
+  | FMain o' => op_okb pre o' post evs
+  | FPeers _ => if is_nil_ev evs && same_prod_state pre post then 1 else 0
+  | FNet _ _ => if same_prod_state pre post then 1 else 0
+  end.
+
 (* first failing class over a whole observed trace *)
-Fixpoint trace_okb (pre : mstate) (ops : list op) (obs : list (mstate * result * list event)) : N :=
+Fixpoint trace_okb (pre : mstate) (ops : list fop) (obs : list (mstate * fres * list event)) : N :=
   match ops, obs with
   | [], [] => 1
-  | o :: ops', (post, _, evs) :: obs' =>
-      match op_okb pre o post evs with
+  | o :: ops', (post, res, evs) :: obs' =>
+      match fop_okb pre o res post evs with
       | 1 => trace_okb post ops' obs'
       | c => c
       end
@@ -421,20 +712,24 @@ Definition T_mode (t : T) : option mode :=
   | _ => None
   end.
 
-Definition T_op (t : T) : option op :=
+Definition T_fop (t : T) : option fop :=
   match t with
-  | L [I 0%Z; c; s; l; f] =>
-      match getN c, getB s, T_leader l, T_opt_pair f with
-      | Some c, Some s, Some l, Some f => Some (OTick c s l f) | _, _, _, _ => None end
+  | L [I 0%Z; c; s; l; f; m] =>
+      match getN c, getB s, T_leader l, T_opt_pair f, T_opt_pair m with
+      | Some c, Some s, Some l, Some f, Some m => Some (FTick c s l f m)
+      | _, _, _, _, _ => None end
   | L [I 1%Z; c; s; st; m; f] =>
       match getN c, getB s, getOptN st, T_mode m, T_opt_pair f with
-      | Some c, Some s, Some st, Some m, Some f => Some (OManual c s st m f)
+      | Some c, Some s, Some st, Some m, Some f => Some (FMain (OManual c s st m f))
       | _, _, _, _, _ => None end
   | L [I 2%Z; c; h; tm] =>
       match getN c, getN h, getN tm with
-      | Some c, Some h, Some tm => Some (OSync c h tm) | _, _, _ => None end
-  | L [I 3%Z; d] => option_map ODb (T_opt_pair d)
-  | L [I 4%Z; m] => option_map OAdvance (getN m)
+      | Some c, Some h, Some tm => Some (FMain (OSync c h tm)) | _, _, _ => None end
+  | L [I 3%Z; d] => option_map (fun d => FMain (ODb d)) (T_opt_pair d)
+  | L [I 4%Z; m] => option_map (fun m => FMain (OAdvance m)) (getN m)
+  | L [I 5%Z; n] => option_map FPeers (getN n)
+  | L [I 6%Z; d; tm] =>
+      match getN d, getN tm with Some d, Some tm => Some (FNet d tm) | _, _ => None end
   | _ => None
   end.
 
@@ -442,6 +737,16 @@ Definition result_T (r : result) : T :=
   match r with
   | RContinue => L [I 0] | RErrorContinue => L [I 1] | RBlocked => L [I 3]
   | ROkManual => L [I 0] | RErrManual => L [I 1] | RNone => L []
+  end.
+
+Definition T_result (t : T) : option result :=
+  match t with
+  | L [I 0%Z] => Some RContinue
+  | L [I 1%Z] => Some RErrorContinue
+  | L [I 3%Z] => Some RBlocked
+  | L [] => Some RNone
+  | L [I _] => Some RNone
+  | _ => None
   end.
 
 Definition event_T (e : event) : T :=
@@ -452,6 +757,8 @@ Definition event_T (e : event) : T :=
   | ECommit h t s _ => L [I 3; tN h; tN t; tB s]
   | EExec h t _ => L [I 4; tN h; tN t]
   | ERelease => L [I 5]
+  | EImported h t lo a => L [I 6; tN h; tN t; tB lo; tZ a]
+  | EP2p h t a => L [I 7; tN h; tN t; tZ a]
   end.
 
 Definition T_event (t : T) : option event :=
@@ -468,12 +775,20 @@ Definition T_event (t : T) : option event :=
   | L [I 4%Z; h; tm] =>
       match getN h, getN tm with Some h, Some tm => Some (EExec h tm 0) | _, _ => None end
   | L [I 5%Z] => Some ERelease
+  | L [I 6%Z; h; tm; lo; a] =>
+      match getN h, getN tm, getB lo, getZ a with
+      | Some h, Some tm, Some lo, Some a => Some (EImported h tm lo a) | _, _, _, _ => None end
+  | L [I 7%Z; h; tm; a] =>
+      match getN h, getN tm, getZ a with
+      | Some h, Some tm, Some a => Some (EP2p h tm a) | _, _, _ => None end
   | _ => None
   end.
 
+Definition pub_T (p : option (N * N)) : T :=
+  match p with None => L [] | Some (h, t) => L [tN h; tN t] end.
+
 Definition state_T (st : mstate) : T :=
-  L [tN (last_height st); tN (last_timestamp st); tZ (last_created st); tZ (now_i st);
-     match db st with None => L [] | Some (h, t) => L [tN h; tN t] end].
+  L [tN (last_height st); tN (last_timestamp st); tZ (last_created st); tZ (now_i st); pub_T (db st)].
 
 Definition T_state (tr : trigger) (t : T) : option mstate :=
   match t with
@@ -486,36 +801,53 @@ Definition T_state (tr : trigger) (t : T) : option mstate :=
   | _ => None
   end.
 
-Definition T_obs (tr : trigger) (t : T) : option (mstate * result * list event) :=
+Definition fres_T (r : fres) : T :=
+  match r_ens r with
+  | Some (passed, st, p) => L [I (if passed then 0 else 1); state_T st; pub_T p; result_T (r_res r)]
+  | None => result_T (r_res r)
+  end.
+
+Definition T_fres (tr : trigger) (t : T) : option fres :=
   match t with
-  | L [_; s; L evs] =>
-      match T_state tr s, mapM T_event evs with
-      | Some s, Some evs => Some (s, RNone, evs)
-      | _, _ => None end
+  | L [I c; s; p; r] =>
+      match T_state tr s, T_opt_pair p, T_result r with
+      | Some s, Some p, Some r =>
+          Some {| r_ens := Some (Z.eqb c 0, s, p); r_res := r |}
+      | _, _, _ => None end
+  | _ => option_map (fun r => {| r_ens := None; r_res := r |}) (T_result t)
+  end.
+
+Definition fobs_T (x : fstate * fres * list event) : T :=
+  let '(f, r, ev) := x in
+  L [fres_T r; state_T (fm f); pub_T (s_pub (fs f)); L (map event_T ev)].
+
+Definition T_fobs (tr : trigger) (t : T) : option (mstate * fres * list event) :=
+  match t with
+  | L [r; s; _; L evs] =>
+      match T_fres tr r, T_state tr s, mapM T_event evs with
+      | Some r, Some s, Some evs => Some (s, r, evs)
+      | _, _, _ => None end
   | _ => None
   end.
 
-Definition obs_T (x : mstate * result * list event) : T :=
-  let '(st, r, ev) := x in L [result_T r; state_T st; L (map event_T ev)].
-
-(* input: (trigger (h0 t0) clock0 ops) *)
+(* input: (trigger (h0 t0) clock0 (min_peers time_until_synced_ms) ops) *)
 Definition main24 (input observed : T) : T :=
   match input with
-  | L [tr; ht; c0; L ops] =>
-      match T_trigger tr, T_pair ht, getN c0, mapM T_op ops with
-      | Some tr, Some (h0, t0), Some c0, Some ops =>
-          let st0 := init tr h0 t0 c0 in
-          let model := L (L [L []; state_T st0; L []] :: map obs_T (run st0 ops)) in
+  | L [tr; ht; c0; sy; L ops] =>
+      match T_trigger tr, T_pair ht, getN c0, T_pair sy, mapM T_fop ops with
+      | Some tr, Some (h0, t0), Some c0, Some (mn, tus), Some ops =>
+          let f0 := finit tr h0 t0 c0 mn tus in
+          let model := L (L [L []; state_T (fm f0); pub_T (s_pub (fs f0)); L []] :: map fobs_T (frun f0 ops)) in
           let pc := match observed with
                     | L (first :: rest) =>
-                        match T_obs tr first, mapM (T_obs tr) rest with
+                        match T_fobs tr first, mapM (T_fobs tr) rest with
                         | Some (pre, _, _), Some rest => trace_okb pre ops rest
                         | _, _ => 0
                         end
                     | _ => 0
                     end in
           L [model; tN pc]
-      | _, _, _, _ => tErr 2
+      | _, _, _, _, _ => tErr 2
       end
   | _ => tErr 1
   end.
